@@ -368,6 +368,125 @@ let c03_search (c : case) (mode : string) km pm (wit : bytes list) (ssig : bytes
     | [] -> ()
   end
 
+
+(* ------------------------------------------------------------------ C06: type labels vs execution on enumerated stacks *)
+let c06_frags = ref 0 and c06_execs = ref 0 and c06_bad = ref 0
+let c06_clauses : (string, int) Hashtbl.t = Hashtbl.create 16
+let clause_hit k = Hashtbl.replace c06_clauses k (1 + (try Hashtbl.find c06_clauses k with Not_found -> 0))
+
+let rec ms_keys (m : ms) : int list =
+  match m with
+  | MPkK k | MPkH k -> [int_of_n k]
+  | MMulti (_, ks) | MSortedMulti (_, ks) | MMultiA (_, ks) | MSortedMultiA (_, ks) -> List.map int_of_n ks
+  | MAlt x | MSwap x | MCheck x | MDupIf x | MVerify x | MNonZero x | MZeroNotEqual x -> ms_keys x
+  | MAndV (x, y) | MAndB (x, y) | MOrB (x, y) | MOrD (x, y) | MOrC (x, y) | MOrI (x, y) -> ms_keys x @ ms_keys y
+  | MAndOr (a, b, c) -> ms_keys a @ ms_keys b @ ms_keys c
+  | MThresh (_, xs) -> List.concat_map ms_keys xs
+  | _ -> []
+let rec ms_hashes (m : ms) : bytes list =
+  match m with
+  | MSha256 h | MHash256 h | MRipemd160 h | MHash160 h -> [h]
+  | MAlt x | MSwap x | MCheck x | MDupIf x | MVerify x | MNonZero x | MZeroNotEqual x -> ms_hashes x
+  | MAndV (x, y) | MAndB (x, y) | MOrB (x, y) | MOrD (x, y) | MOrC (x, y) | MOrI (x, y) -> ms_hashes x @ ms_hashes y
+  | MAndOr (a, b, c) -> ms_hashes a @ ms_hashes b @ ms_hashes c
+  | MThresh (_, xs) -> List.concat_map ms_hashes xs
+  | _ -> []
+
+let fake_sig i = [byte_tab.(0x30); byte_tab.(i); byte_tab.(0x01)]
+
+let rec is_suffix (t : bytes list) (s : bytes list) : bool =
+  t = s || (match s with [] -> false | _ :: r -> is_suffix t r)
+let rec take_l k l = if k = 0 then [] else match l with x :: r -> x :: take_l (k - 1) r | [] -> []
+let rec drop_l k l = if k = 0 then l else match l with _ :: r -> drop_l (k - 1) r | [] -> []
+
+let handle_frag (line : string) =
+  match String.split_on_char '|' line with
+  | [hd; msd; sc] ->
+    (match split hd, split sc with
+     | ["FRAG"; ctx; tystr], [schex] ->
+       let m = parse_ms (split msd) in
+       let tap = ctx = "tap" in
+       let script = (match parse_script (bytes_of_hex schex) with Some s -> s | None -> failwith "C06: script does not parse") in
+       let base = tystr.[0] in
+       let props = (match String.index_opt tystr '/' with Some i -> String.sub tystr (i + 1) (String.length tystr - i - 1) | None -> "") in
+       let has c = String.contains props c in
+       if base = 'B' || base = 'V' then begin
+         incr c06_frags;
+         let ks = List.sort_uniq compare (ms_keys m) in
+         let kbytes i = let r = key i in if tap then r.xonly else r.full in
+         let sigpairs = List.map (fun i -> (kbytes i, fake_sig i)) ks in
+         let valid_sigs = List.map snd sigpairs in
+         let known = List.concat_map (fun (_, k) -> [k.full; k.xonly]) !keys in
+         let pre_for_img h = List.filter_map (fun (j, p) ->
+             if j < List.length !pres - 1 && (p.sha = h || p.h256 = h || p.rip = h || p.h160 = h) then Some p.pre else None) !pres in
+         let zeros = List.init 32 (fun _ -> byte_tab.(0)) in
+         let alpha = List.sort_uniq compare
+             ([[]; [byte_tab.(1)]; [byte_tab.(2)]; [byte_tab.(0x30); byte_tab.(0xff)]; zeros]
+              @ valid_sigs @ List.map kbytes ks @ List.concat_map pre_for_img (ms_hashes m)) in
+         let alpha = Array.of_list alpha in
+         let a = Array.length alpha in
+         let maxlen = if a <= 7 then 4 else if a <= 11 then 3 else 2 in
+         let sv_kind = if tap then "tr" else if ctx = "segwitv0" then "wsh" else "sh" in
+         let hashes_tbl = { id = "c06"; kind = sv_kind; sane = true; desc = ""; scripts = []; mss = []; spk = [];
+                            txv = 2; lock = 0; seq = 0; held_abs = None; held_rel = None; sigpairs; sigs_idx = []; sigs_leaf = []; hashes_c = [] } in
+         let envs = [ (499999999, 65535); (2147483647, 0x400000 lor 65535) ] in
+         List.iter (fun (lock, seq) ->
+           let e0 = mk_env_with hashes_tbl lock seq in
+           let e = { e0 with e_sv = (if tap then SvTapscript else if ctx = "segwitv0" then SvWitnessV0 else SvBase);
+                             e_keyok = (fun k -> let l = List.length k in if tap then l = 32 else (l = 33 || l = 65) && List.mem k known) } in
+           let dis_prefixes = ref [] in
+           let bad what st =
+             incr c06_bad;
+             Printf.printf "BAD C06 ctx=%s type=%s clause=%s lock=%d seq=%d ms=%s stack=%s script=%s\n"
+               ctx tystr what lock seq (String.trim msd) (hexs st) schex in
+           let rec enum len prefix =
+             if len = 0 then begin
+               let st = List.rev prefix in
+               incr c06_execs;
+               match exec e script { stk = st; alt = [] } with
+               | Fail -> ()
+               | Ok r ->
+                 if r.alt <> [] then bad "alt-stack-not-restored" st;
+                 let (v, t) = (match base, r.stk with
+                     | 'B', v :: t -> (Some v, t)
+                     | 'B', [] -> bad "B-left-nothing" st; (None, [])
+                     | _, t -> (None, t)) in
+                 if not (is_suffix t st) then bad "frame-not-preserved" st
+                 else begin
+                   let n = List.length st - List.length t in
+                   let consumed = take_l n st in
+                   let sat = (match v with Some v -> truthy v | None -> true) in
+                   let has_valid_sig = List.exists (fun x -> List.mem x valid_sigs) consumed in
+                   if has 'z' && n <> 0 then bad "z-consumed-elements" st;
+                   if has 'o' && n <> 1 then bad "o-did-not-consume-exactly-one" st;
+                   if has 'n' && sat && n > 0 && List.hd st = [] then bad "n-satisfied-with-empty-top" st;
+                   (match v with
+                    | Some v ->
+                      if has 'u' && sat && v <> [byte_tab.(1)] then bad "u-left-other-than-1" st;
+                      if has 'f' && (not sat) && not has_valid_sig then bad "f-dissatisfied-without-signature" st;
+                      if (not sat) && not has_valid_sig then
+                        (if not (List.mem consumed !dis_prefixes) then dis_prefixes := consumed :: !dis_prefixes)
+                    | None -> ());
+                   if has 's' && sat && not has_valid_sig then bad "s-satisfied-without-signature" st
+                 end
+             end else Array.iter (fun x -> enum (len - 1) (x :: prefix)) alpha in
+           for len = 0 to maxlen do enum len [] done;
+           (* d: some signature-free dissatisfaction exists (if the table says one fits the bound); e: it is unique *)
+           if base = 'B' then begin
+             let ke = keyenv_of tap in
+             let a0 : assets = { a_sig = (fun _ -> None); a_sha256 = (fun _ -> None); a_hash256 = (fun _ -> None);
+                                 a_ripemd160 = (fun _ -> None); a_hash160 = (fun _ -> None);
+                                 a_after = (fun _ -> false); a_older = (fun _ -> false) } in
+             let fits = List.exists (fun w -> List.length w <= maxlen) (all_dsat ke a0 m) in
+             if has 'd' && fits && !dis_prefixes = [] then bad "d-no-signature-free-dissatisfaction-found" [];
+             if has 'e' && has 'm' && List.length !dis_prefixes > 1 then bad "e-dissatisfaction-not-unique" (List.concat !dis_prefixes)
+           end;
+           List.iter (fun c -> if has c then clause_hit (String.make 1 c)) ['z'; 'o'; 'n'; 'd'; 'u'; 'f'; 'e'; 's']
+         ) envs
+       end
+     | _ -> failwith "bad FRAG head")
+  | _ -> failwith "bad FRAG line"
+
 (* ------------------------------------------------------------------ plans (C17) *)
 let c17_checked = ref 0 and c17_bad = ref 0 and c17_lockprobes = ref 0
 let bad17 c mode km pm what extra =
@@ -489,10 +608,15 @@ let () =
        | "RUN" :: rest -> upd (fun c -> handle_run c rest)
        | "PLAN" :: rest -> upd (fun c -> handle_plan c rest)
        | "END" :: _ -> cur := None; Hashtbl.reset runs
+       | "FRAG" :: _ -> handle_frag line
        | "PANIC" :: _ -> incr stats_panic; print_endline line
        | _ -> ()
      done
    with End_of_file -> ());
   Printf.printf "SUMMARY cases=%d ok=%d bad=%d err=%d panic=%d model_eq=%d model_diff=%d c02_checked=%d c02_bad=%d c17_checked=%d c17_bad=%d c17_lockprobes=%d c03_checked=%d c03_bad=%d c03_candidates=%d\n"
     !ncases !stats_ok !stats_bad !stats_err !stats_panic !model_eq !model_diff !c02_checked !c02_bad !c17_checked !c17_bad !c17_lockprobes !c03_checked !c03_bad !c03_candidates;
+  if !c06_frags > 0 then begin
+    Printf.printf "SUMMARY06 frags=%d execs=%d bad=%d\n" !c06_frags !c06_execs !c06_bad;
+    Hashtbl.iter (fun k v -> Printf.printf "HIST06 %s %d\n" k v) c06_clauses
+  end;
   Hashtbl.iter (fun k v -> Printf.printf "HIST %s %d\n" k v) hist
